@@ -340,6 +340,16 @@ func evalOb(c *Ctx, e *e1, ob Ob) (nMatched int) {
 						cands = append(cands, r)
 						cands = append(cands, f.expandDefs(s.states[i], r)...)
 					}
+					// definitions first, then the value the defining helper call returned on this path
+					for _, d := range append([]*Term{}, cands...) {
+						if r := expandReturned(s.states[i], d); r != nil {
+							cands = append(cands, r)
+						}
+					}
+					// a variable that equals a package-level value on this path (`return err` with eq(err, ErrX))
+					if r := expandVarEq(s.states[i], st); r != nil {
+						cands = append(cands, r)
+					}
 					if nf := normalForm(s.states[i], st); nf != nil {
 						cands = append(cands, nf)
 					}
@@ -590,6 +600,45 @@ func expandReturned(st *fstate, t *Term) *Term {
 	return out
 }
 
+
+// expandVarEq: the term with every variable v replaced by G when the state holds eq(v, G) for a package-level variable
+// or constant G (never for other values: a variable "equal to" another local says nothing about what is returned).
+func expandVarEq(st *fstate, t *Term) *Term {
+	vals := map[string]*Term{}
+	for _, fc := range st.facts {
+		if fc.S != "eq" || len(fc.A) != 2 || fc.A[0].K != "var" {
+			continue
+		}
+		v := fc.A[1]
+		if v.K == "const" || (v.K == "var" && v.Obj != nil && isPkgLevel(v.Obj)) || (v.K == "sel" && len(v.A) == 1 && v.A[0].K == "pkg") {
+			vals[fc.A[0].Key()] = v
+		}
+	}
+	if len(vals) == 0 {
+		return nil
+	}
+	changed := false
+	var rec func(t *Term) *Term
+	rec = func(t *Term) *Term {
+		if v, ok := vals[t.Key()]; ok && t.K == "var" {
+			changed = true
+			return v
+		}
+		if len(t.A) == 0 {
+			return t
+		}
+		n := &Term{K: t.K, S: t.S, Obj: t.Obj}
+		for _, a := range t.A {
+			n.A = append(n.A, rec(a))
+		}
+		return n
+	}
+	out := rec(t)
+	if !changed {
+		return nil
+	}
+	return out
+}
 
 // softAnchor: an unexported function or method (an internal helper the tables happen to describe); exported API is never soft.
 func softAnchor(name string) bool {
